@@ -9,7 +9,7 @@ use xml_dom::{Node, NodeList, PrettyPrint, XmlNode};
 
 #[derive(Clone, Debug)]
 pub enum G {
-    El { name: String, attrs: Vec<(String, String)>, kids: Vec<G> },
+    El { name: String, attrs: Vec<(String, String)>, kids: Vec<G>, ns: Option<String> },
     Text(String),
     CData(String),
     Comment(String),
@@ -75,7 +75,7 @@ impl<'a> CliGen<'a> {
                 15 => G::PI(self.rng.ps(&["t", "u"]).to_string(), if self.rng.pct(40) { String::new() } else { self.word(1, 4).trim_start().to_string() }),
                 16 | 17 => G::CData(format!("{}{}", self.word(0, 4), if self.rng.pct(30) { "<&" } else { "" })),
                 18 => {
-                    let (s, c) = *self.rng.pick(&[("&#233;", "é"), ("&#x1D4B3;", "𝒳"), ("&#38;", "&"), ("&#60;", "<")]);
+                    let (s, c) = *self.rng.pick(&[("&#233;", "é"), ("&#x1D4B3;", "𝒳"), ("&#38;", "&"), ("&#60;", "<"), ("&#x26;", "&"), ("&#x3C;", "<"), ("&#038;", "&"), ("&#0060;", "<"), ("&#x3e;", ">")]);
                     G::CharRef(s.to_string(), c.to_string())
                 }
                 _ => {
@@ -105,7 +105,8 @@ impl<'a> CliGen<'a> {
             }
         }
         let kids = self.kids(depth);
-        G::El { name, attrs, kids }
+        let ns = if depth > 0 && self.rng.pct(8) { Some(self.rng.ps(&["urn:p2", "urn:p"]).to_string()) } else { None };
+        G::El { name, attrs, kids, ns }
     }
 
     pub fn document(&mut self) -> (Vec<G>, G, Vec<G>, String) {
@@ -122,7 +123,7 @@ impl<'a> CliGen<'a> {
             pre.push(G::PI("t".into(), "x".into()));
         }
         let root = match self.element(0) {
-            G::El { name, attrs, kids } => G::El { name, attrs, kids },
+            G::El { name, attrs, kids, ns } => G::El { name, attrs, kids, ns },
             g => g,
         };
         let mut post = vec![];
@@ -135,11 +136,13 @@ impl<'a> CliGen<'a> {
 
 pub fn render(g: &G, root: bool, out: &mut String) {
     match g {
-        G::El { name, attrs, kids } => {
+        G::El { name, attrs, kids, ns } => {
             out.push('<');
             out.push_str(name);
             if root {
                 out.push_str(" xmlns:p=\"urn:p\"");
+            } else if let Some(u) = ns {
+                out.push_str(&format!(" xmlns:p=\"{}\"", u));
             }
             for (k, v) in attrs {
                 let q = if v.contains('"') { '\'' } else { '"' };
@@ -197,7 +200,7 @@ pub fn canon_kids(kids: &[G], out: &mut String) {
                 flush(&mut run, out);
                 out.push_str(&format!("P({:?},{:?})", t, d));
             }
-            G::El { name, attrs, kids } => {
+            G::El { name, attrs, kids, .. } => {
                 flush(&mut run, out);
                 out.push_str(&format!("E({:?}", local(name)));
                 let mut a: Vec<(String, String)> = attrs.iter().map(|(k, v)| (local(k).to_string(), norm_attr(v))).collect();
@@ -229,17 +232,36 @@ fn string_value(g: &G, out: &mut String) {
 }
 
 /// paths (child indexes among *all* children) of the elements with this qualified name, document order
-fn named_paths(g: &G, name: &str, path: &mut Vec<usize>, out: &mut Vec<Vec<usize>>) {
-    if let G::El { name: n, kids, .. } = g {
-        if n == name {
+/// `want_uri` is the namespace the caller binds the prefix of `name` to (None for unprefixed names)
+fn named_paths_ns(g: &G, name: &str, want_uri: Option<&str>, cur_p: &str, path: &mut Vec<usize>, out: &mut Vec<Vec<usize>>) {
+    if let G::El { name: n, kids, ns, .. } = g {
+        let cur = match ns {
+            Some(u) if !path.is_empty() => u.as_str(),
+            _ => cur_p,
+        };
+        let matches = match want_uri {
+            None => n == name,
+            Some(u) => n == name && cur == u,
+        };
+        if matches {
             out.push(path.clone());
         }
         for (i, k) in kids.iter().enumerate() {
             path.push(i);
-            named_paths(k, name, path, out);
+            named_paths_ns(k, name, want_uri, cur, path, out);
             path.pop();
         }
     }
+}
+
+fn named_paths(g: &G, name: &str, path: &mut Vec<usize>, out: &mut Vec<Vec<usize>>) {
+    let want = if name.contains(':') { Some(CALLER_URI.with(|c| c.borrow().clone())) } else { None };
+    named_paths_ns(g, name, want.as_deref(), "urn:p", path, out);
+}
+
+thread_local! {
+    /// the URI the caller binds its prefix to in the case being generated
+    static CALLER_URI: std::cell::RefCell<String> = std::cell::RefCell::new("urn:p".to_string());
 }
 
 fn get<'x>(root: &'x G, path: &[usize]) -> Option<&'x G> {
@@ -423,6 +445,13 @@ pub fn gen_case(seed: u64, id: u64) -> Case {
     let mut what;
     // caller-side namespace bindings: the caller's prefix need not be the document's
     let caller_p = if rng.pct(50) { "p" } else { "zz" };
+    // the caller may bind that prefix to another namespace than the document does: then nothing (or other nodes) match
+    let caller_uri = match rng.below(10) {
+        0 | 1 => "urn:p2",
+        2 => "urn:other",
+        _ => "urn:p",
+    };
+    CALLER_URI.with(|c| *c.borrow_mut() = caller_uri.to_string());
     let mut need_ns = false;
 
     // selection
@@ -540,7 +569,14 @@ pub fn gen_case(seed: u64, id: u64) -> Case {
                     vb = g.budget;
                     e
                 }
-                8 => G::Comment(g.word(0, 3)),
+                8 => match g.rng.below(3) {
+                    0 => G::Comment(g.word(0, 3)),
+                    1 => G::PI("t".into(), g.word(0, 2).trim_start().to_string()),
+                    _ => {
+                        let (s, c) = *g.rng.pick(&[("&#38;", "&"), ("&#x26;", "&"), ("&#x3C;", "<"), ("&#0060;", "<"), ("&#233;", "é"), ("&#xE9;", "é")]);
+                        G::CharRef(s.to_string(), c.to_string())
+                    }
+                },
                 _ => G::CData(g.word(0, 3)),
             };
             if matches!((&k, vkids.last()), (G::Text(_), Some(G::Text(_)))) {
@@ -555,7 +591,7 @@ pub fn gen_case(seed: u64, id: u64) -> Case {
 
     if need_ns {
         argv.push("--setns".into());
-        argv.push(format!("xmlns:{}=urn:p", caller_p));
+        argv.push(format!("xmlns:{}={}", caller_p, caller_uri));
     }
     let use_file = rng.pct(40);
     if use_file {
@@ -661,7 +697,7 @@ pub fn gen_case(seed: u64, id: u64) -> Case {
             expect_kind = if paths.is_empty() || !has_text_child(&root, &paths) { "canon-unchanged".into() } else { "fail".into() };
             what = "xe given text nodes".into();
         } else if let Some(a) = &attr {
-            let textual = vkids.iter().all(|k| matches!(k, G::Text(_)));
+            let textual = vkids.iter().all(|k| matches!(k, G::Text(_) | G::CharRef(..) | G::EntRef(..)));
             if paths.is_empty() {
                 expect_kind = "canon-unchanged".into();
             } else if !textual {
